@@ -117,6 +117,31 @@ partial def showVal : Val → String
   | .alt i v => "@" ++ toString i ++ "(" ++ showVal v ++ ")"
   | .list vs => "[" ++ ",".intercalate (vs.map showVal) ++ "]"
 
+def sortStrings (xs : List String) : List String := xs.mergeSort (fun a b => decide (a ≤ b))
+
+mutual
+/-- Rendering with the entries of unordered containers sorted by their text (their
+iteration order is unspecified in C++; the harness does the same). -/
+partial def showCanon : Ty → Val → String
+  | .vec t, .list vs => "[" ++ ",".intercalate (vs.map (showCanon t)) ++ "]"
+  | .arr _ t, .list vs => "[" ++ ",".intercalate (vs.map (showCanon t)) ++ "]"
+  | .opt t, .some v => "j(" ++ showCanon t v ++ ")"
+  | .uptr t, .some v => "j(" ++ showCanon t v ++ ")"
+  | .set o t, .list vs =>
+    let xs := vs.map (showCanon t)
+    "[" ++ ",".intercalate (if o then xs else sortStrings xs) ++ "]"
+  | .map o k w, .list vs =>
+    let xs := vs.map fun e => "[" ++ showCanon k (fstOf e) ++ "," ++ showCanon w (sndOf e) ++ "]"
+    "[" ++ ",".intercalate (if o then xs else sortStrings xs) ++ "]"
+  | .tup ts, .list vs => "[" ++ ",".intercalate (showCanons ts vs) ++ "]"
+  | .struct ts, .list vs => "[" ++ ",".intercalate (showCanons ts vs) ++ "]"
+  | .var ts, .alt i v => "@" ++ toString i ++ "(" ++ showCanon (ts.getD i .str) v ++ ")"
+  | _, v => showVal v
+partial def showCanons : List Ty → List Val → List String
+  | t :: ts, v :: vs => showCanon t v :: showCanons ts vs
+  | _, vs => vs.map showVal
+end
+
 def tyOf (s : String) : Option Ty :=
   match parseTy s.toList with
   | some (t, []) => some t
@@ -127,9 +152,9 @@ def valOf (s : String) : Option Val :=
   | some (v, []) => some v
   | _ => none
 
-def showUnpack (total : Nat) : Except Err (Val × Bytes) → String
+def showUnpack (t : Ty) (total : Nat) : Except Err (Val × Bytes) → String
   | .error _ => "err"
-  | .ok (v, rest) => "ok " ++ showVal v ++ " " ++ toString (total - rest.length)
+  | .ok (v, rest) => "ok " ++ showCanon t v ++ " " ++ toString (total - rest.length)
 
 def handle (op : String) (args : List String) : String :=
   match op, args with
@@ -141,11 +166,11 @@ def handle (op : String) (args : List String) : String :=
     | _, _ => "bad-op"
   | "serial.unpack", [ts, hs] =>
     match tyOf ts, ofHex hs with
-    | some t, some bs => showUnpack bs.length (unpack t (dflt t) bs)
+    | some t, some bs => showUnpack t bs.length (unpack t (dflt t) bs)
     | _, _ => "bad-op"
   | "serial.unpackinto", [ts, vs, hs] =>
     match tyOf ts, valOf vs, ofHex hs with
-    | some t, some tgt, some bs => showUnpack bs.length (unpack t tgt bs)
+    | some t, some tgt, some bs => showUnpack t bs.length (unpack t tgt bs)
     | _, _, _ => "bad-op"
   | "serial.fresh", [ts, vs] =>
     match tyOf ts, valOf vs with
